@@ -282,8 +282,16 @@ def report(prop, args, results, kf_lines, kf_replayed, known, wall, seed):
         print(f"CHECKER-CRASH property={prop} unit={cr[0]} cfg={cr[1]}\n{cr[2]}")
     assumed_only = sorted(a for a in applied
                           if not any(getattr(u, "target", None) == a and getattr(u, "has_body", True) for u in verify.UNITS))
+    level = "proof"
+    try:
+        with open(os.path.join(ROOT, "MANIFEST.json")) as f:
+            for ch in json.load(f).get("checks", []):
+                if ch["property_id"] == prop:
+                    level = ch["level_claimed"]["category"]
+    except Exception:
+        pass
     ev = {
-        "property_id": prop, "tier": args.tier, "seed": seed, "level": "proof",
+        "property_id": prop, "tier": args.tier, "seed": seed, "level": level,
         "coverage": {
             "obligations": n_ob, "discharged": n_dis,
             "checker_cmd": f"./check {prop} --tier {args.tier}",
